@@ -459,3 +459,264 @@ def check_c16(chk, tier):
                 "every tree is analysed twice by the real analyze_dir -- as is, and as a copy without the ineligible files -- "
                 "and TV_DirWalk accepts iff both results equal the union over the eligible files. A panic is a violation.")
     chk.assumptions = ["file names that contain '.t.sol' not at the end but end in '.sol' are not generated (the statement does not classify them)"]
+
+
+# ---------------------------------------------------------------------------
+# C15 (independence: schedules, sequences, siblings)
+# ---------------------------------------------------------------------------
+
+@prop("C15")
+def check_c15(chk, tier):
+    hb = vlib.build_harness("dev")
+    d = wdir("C15")
+    cfgs = ["t2c2", "t3c1", "t1c4"] + (["t3c2"] if tier == "thorough" else [])
+    sched = []
+    for c in cfgs:
+        r = vlib.tlc("MC_Calls", "MC_Calls.%s.cfg" % c, workers=4, timeout=1800, tag="C15")
+        chk.add_tlc(r)
+        sched += r.records.get("REPLAY", [])
+    if len(sched) < 100:
+        raise ToolError("MC_Calls generated only %d schedules" % len(sched))
+    neg = vlib.tlc("MC_Calls", "MC_Calls.neg.cfg", workers=2, timeout=300, expect_violation=True)
+    if neg.violated != "Isolated":
+        raise ToolError("negative control SharedScratch did not violate Isolated")
+    chk.extra["negative_controls"] = ["SharedScratch (hidden static buffer) violates Isolated under some interleavings"]
+    if tier == "thorough" and len(sched) > 6000:
+        sched = sched[:200] + sched[200::(len(sched) // 5800 + 1)]
+    spath = os.path.join(d, "schedules.ndjson")
+    vlib.write_ndjson(spath, sched)
+    corpus = prepare_corpus()
+    nfiles = "12" if tier == "quick" else "40"
+    bpath = os.path.join(d, "baseline.json")
+    # the baseline comes from its own fresh process
+    chk.add_harness(vlib.harness(hb, ["c15-baseline", corpus, nfiles, bpath]), count_traces=False)
+    tpath = os.path.join(d, "trace.ndjson")
+    res = vlib.harness(hb, ["c15-run", spath, corpus, nfiles, bpath, "1" if tier == "quick" else "3", tpath], timeout=3000)
+    chk.add_harness(res, count_traces=False)
+
+    def describe(rec, why):
+        return ("call-not-isolated:%s:%s" % (rec["k"], why),
+                "a call of %s returned a result different from the isolated baseline (history %s)" % (why, json.dumps(rec["history"])[:200]))
+    trace_validate(chk, "TV_Calls", tpath, describe, env={"BASELINE": bpath}, timeout=3000)
+    # (iii) siblings, position, co-selected patterns: random directory trees validated against isolated per-file results
+    scratch = vlib.scratch_dir("C15")
+    try:
+        t2 = os.path.join(d, "trace-dirs.ndjson")
+        res2 = vlib.harness(hb, ["dir-replay", "-", scratch, "0", corpus, "150" if tier == "quick" else "2000", t2], timeout=3000)
+    finally:
+        shutil.rmtree(scratch, ignore_errors=True)
+    chk.add_harness(res2, count_traces=False)
+
+    def describe2(rec, why):
+        return ("dir-verdict-depends-on-context:%s" % why, "analyze_dir result differs from the isolated per-file results (%s): %s" % (why, json.dumps(rec["result"])[:300]))
+    trace_validate(chk, "TV_DirWalk", t2, describe2, timeout=3000)
+    chk.exhaustive = True
+    chk.rule = ("TLC enumerates every Begin/End interleaving of 2 threads x 2 calls, 3 threads x 1 call (thorough: 3 x 2) "
+                "of the caller model; each schedule is enforced on real threads calling the real analyze_for_* (turn tokens "
+                "order the Begins and Ends, the computations overlap), with calls sharing file and/or detector in varying ways; "
+                "all ordered detector pairs are run sequentially on the same and on different files; every result must equal "
+                "the baseline obtained in a separate fresh process (TV_Calls). Random directory trees with random co-selected "
+                "pattern lists and siblings are validated against isolated per-file results (TV_DirWalk). Non-trivial = "
+                "multi-thread schedules.")
+    chk.assumptions = ["interleavings are controlled at call boundaries only"]
+
+
+# ---------------------------------------------------------------------------
+# C14 (configuration) -- the real binary
+# ---------------------------------------------------------------------------
+import bindrive  # noqa: E402
+
+
+@prop("C14")
+def check_c14(chk, tier):
+    hb = vlib.build_harness("dev")
+    sb = vlib.build_solstat_bin()
+    d = wdir("C14")
+    cat = bindrive.extract_catalogue()
+    cpath = os.path.join(d, "catalogue.json")
+    with open(cpath, "w") as f:
+        json.dump(cat, f)
+    chk.extra["catalogue"] = cat
+    suffix = "quick" if tier == "quick" else "thorough"
+    r = vlib.tlc("MC_Config", "MC_Config.%s.cfg" % suffix, workers=8, timeout=1800, env={"CATALOGUE": cpath})
+    chk.add_tlc(r)
+    inputs = r.records.get("REPLAY", [])
+    if len(inputs) < 100:
+        raise ToolError("MC_Config generated only %d inputs" % len(inputs))
+    scratch = vlib.scratch_dir("C14")
+    recs = []
+    try:
+        cwd = os.path.join(scratch, "cwd")
+        os.makedirs(cwd)
+        bindrive.make_witness_dir(os.path.join(cwd, "P"), "P")
+        bindrive.make_witness_dir(os.path.join(cwd, "T"), "T")
+        reports = os.path.join(scratch, "reports")
+        os.makedirs(reports)
+        sentinel = "SENTINEL previous report\n"
+        rpath = os.path.join(cwd, "solstat_report.md")
+        cdir = os.path.join(cwd, "contracts")
+        for i, rec in enumerate(inputs):
+            inp = rec["input"]
+            if inp["contracts"] and not os.path.isdir(cdir):
+                bindrive.make_witness_dir(cdir, "C")
+            if not inp["contracts"] and os.path.isdir(cdir):
+                shutil.rmtree(cdir)
+            stale = (i % 2 == 1)
+            if os.path.exists(rpath):
+                os.remove(rpath)
+            if stale:
+                with open(rpath, "w") as f:
+                    f.write(sentinel)
+            args = []
+            if inp["flag"]:
+                args += ["--path", inp["flag"]]
+            if inp["toml"]:
+                with open(os.path.join(cwd, "cfg.toml"), "w") as f:
+                    f.write(bindrive.toml_text(inp["toml"][0], inp["toml"][0]["path"]))
+                args += ["--toml", "cfg.toml"]
+            code, err = bindrive.run_solstat(sb, cwd, args)
+            written = os.path.exists(rpath) and open(rpath, errors="replace").read() != sentinel
+            if written:
+                shutil.copy(rpath, os.path.join(reports, "r%05d.md" % i))
+            recs.append({"k": "run", "input": inp, "args": args, "stale": stale,
+                         "obs": {"exit": code, "report_written": written, "dirs": [], "sections": {c: [] for c in bindrive.CATS}},
+                         "stderr": err[-200:]})
+        parsed = bindrive.parse_reports(hb, reports)
+        for i, rc in enumerate(recs):
+            p = parsed.get("r%05d.md" % i)
+            if p:
+                secs, files = bindrive.sections_of(p)
+                rc["obs"]["sections"] = secs
+                dirs = sorted(set({"P": "P", "T": "T", "C": "./contracts"}.get(f.split("_")[0], "?" + f) for f in files))
+                rc["obs"]["dirs"] = dirs
+                rc["obs"]["garbage"] = p["garbage"]
+    finally:
+        shutil.rmtree(scratch, ignore_errors=True)
+    names = vlib.harness(hb, ["names-check", cpath])
+    chk.add_harness(names, count_traces=False)
+    recs.append(names["extra"]["names_record"])
+    chk.extra.pop("names_record", None)
+    tpath = os.path.join(d, "trace.ndjson")
+    vlib.write_ndjson(tpath, recs)
+    chk.evaluations += len(recs)
+    chk.nontrivial += sum(1 for x in recs if x.get("k") == "run" and x["input"]["toml"])
+    chk.samples.append(recs[len(recs) // 2])
+
+    def describe(rec, why):
+        if rec["k"] == "names":
+            return ("names:%s:%s" % (why, json.dumps(rec.get("unresolved") or rec.get("collisions") or rec.get("defaults_without_name"))[:120]),
+                    "name tables vs documentation: unresolved=%s collisions=%s defaults without a documented name=%s" % (
+                        rec["unresolved"], rec["collisions"], rec["defaults_without_name"]))
+        inp = rec["input"]
+        detail = ""
+        if why == "wrong-directory":
+            detail = ":flag=%s:toml=%s:got=%s" % (bool(inp["flag"]), bool(inp["toml"]), "+".join(rec["obs"]["dirs"]))
+        elif why == "documented-input-rejected":
+            m = re.search(r"Unrecgoni[sz]ed \w+: (\S*)", rec.get("stderr", ""))
+            detail = ":" + (m.group(1) if m else ("toml-without-contracts" if inp["toml"] and not inp["contracts"] else "other"))
+        elif why in ("unknown-name-accepted", "wrong-patterns") and inp["toml"]:
+            t = inp["toml"][0]
+            names = [n["base"] for c in bindrive.CATS for n in t[c]]
+            detail = ":" + ",".join(names[:2])
+        return ("config:%s%s" % (why, detail),
+                "solstat %s with input %s: exit=%s report_written=%s dirs=%s sections=%s" % (
+                    " ".join(rec["args"]), json.dumps(inp)[:300], rec["obs"]["exit"], rec["obs"]["report_written"],
+                    rec["obs"]["dirs"], json.dumps(rec["obs"]["sections"])[:300]))
+    trace_validate(chk, "TV_Config", tpath, describe, env={"CATALOGUE": cpath}, timeout=1800)
+    chk.exhaustive = True
+    chk.rule = ("The catalogue of documented names is extracted from docs/identified-*.md and Solstat.toml in /repo at check "
+                "time. TLC runs the option-resolution machine over every input of the family (--path present/absent x --toml "
+                "absent / single name in 4 casings / adjacent pairs in both orders / full lists / 7 kinds of unknown name at "
+                "either position x ./contracts present/absent) and checks abort-iff, abort-before-write and directory "
+                "precedence; the real binary is run on each input in a scratch cwd with three witness directories whose file "
+                "names identify them and whose contents trigger all 30 patterns; exit status, report presence (also against a "
+                "stale sentinel report), directory identity and the sections read back are validated by TV_Config; the name "
+                "tables are checked directly for injectivity and coverage of the defaults. Non-trivial = runs with a toml.")
+    chk.assumptions = ["the witness contracts make every pattern report at least one line (checked: a missing section is reported as wrong-patterns)"]
+
+
+# ---------------------------------------------------------------------------
+# C18 (file-system effects) -- the real binary
+# ---------------------------------------------------------------------------
+
+@prop("C18")
+def check_c18(chk, tier):
+    hb = vlib.build_harness("dev")
+    sb = vlib.build_solstat_bin()
+    d = wdir("C18")
+    suffix = "quick" if tier == "quick" else "thorough"
+    r = vlib.tlc("MC_RunFs", "MC_RunFs.%s.cfg" % suffix, workers=4, timeout=1800)
+    chk.add_tlc(r)
+    hist = r.records.get("REPLAY", [])
+    if len(hist) < 500:
+        raise ToolError("MC_RunFs generated only %d histories" % len(hist))
+    for neg, inv in (("neg1", "AppendMode"), ("neg2", "ReadsStale")):
+        n = vlib.tlc("MC_RunFs", "MC_RunFs.%s.cfg" % neg, workers=2, timeout=300, expect_violation=True)
+        if n.violated != "Overwrite":
+            raise ToolError("negative control %s did not violate Overwrite" % inv)
+    chk.extra["negative_controls"] = ["AppendMode violates Overwrite", "ReadsStale violates Overwrite"]
+    scratch = vlib.scratch_dir("C18")
+    recs = []
+    try:
+        root = os.path.join(scratch, "root")
+        proj = os.path.join(root, "proj")
+        os.makedirs(root)
+        bindrive.make_witness_dir(proj, "W")
+        inner = os.path.join(proj, "inner")
+        os.makedirs(inner)
+        shutil.copy(os.path.join(ROOT, "corpus", "packing.sol"), os.path.join(inner, "Deep.sol"))
+        with open(os.path.join(inner, "Broken.t.sol"), "wb") as f:
+            f.write(b"contract Broken { function (")
+        with open(os.path.join(proj, "notes.txt"), "wb") as f:
+            f.write(b"\x00\xff not solidity")
+        os.makedirs(os.path.join(root, "other"))
+        cwds = {"in": proj, "parent": root, "sub": inner, "other": os.path.join(root, "other")}
+        argsof = {"in": ["--path", "."], "parent": ["--path", "proj"], "sub": ["--path", ".."], "other": ["--path", proj]}
+        # the clean report R
+        code, err = bindrive.run_solstat(sb, cwds["other"], argsof["other"])
+        rfile = os.path.join(cwds["other"], "solstat_report.md")
+        if code != 0 or not os.path.exists(rfile):
+            raise ToolError("clean run failed: exit %s %s" % (code, err))
+        clean = open(rfile, "rb").read()
+        os.remove(rfile)
+        stale = {"junk": b"previous junk\n", "R": clean,
+                 "sol": b"pragma solidity ^0.4.0;\ncontract X { function f() public { x++; selfdestruct(msg.sender); } }\n"}
+        for h in hist:
+            for c, p in cwds.items():
+                rp = os.path.join(p, "solstat_report.md")
+                if os.path.exists(rp):
+                    os.remove(rp)
+                if h["init"][c] != "absent":
+                    with open(rp, "wb") as f:
+                        f.write(stale[h["init"][c]])
+            for step, c in enumerate(h["history"]):
+                before = bindrive.snapshot(root)
+                code, err = bindrive.run_solstat(sb, cwds[c], argsof[c])
+                after = bindrive.snapshot(root)
+                changed = sorted(p for p in set(before) | set(after) if before.get(p) != after.get(p))
+                rp = os.path.relpath(os.path.join(cwds[c], "solstat_report.md"), root)
+                full = os.path.join(root, rp)
+                is_clean = os.path.exists(full) and open(full, "rb").read() == clean
+                recs.append({"k": "run", "cwd": c, "step": step + 1, "init": h["init"], "history": h["history"],
+                             "obs": {"exit": code, "changed": changed, "report_is_clean": is_clean, "report_path": rp}})
+    finally:
+        shutil.rmtree(scratch, ignore_errors=True)
+    tpath = os.path.join(d, "trace.ndjson")
+    vlib.write_ndjson(tpath, recs)
+    chk.evaluations += len(recs)
+    chk.nontrivial += sum(1 for x in recs if x["init"][x["cwd"]] != "absent" or x["step"] > 1)
+    chk.samples.append(recs[len(recs) // 3])
+
+    def describe(rec, why):
+        return ("runfs:%s:cwd=%s:stale=%s" % (why, rec["cwd"], rec["init"][rec["cwd"]] if rec["step"] == 1 else "later-run"),
+                "run %d of history %s (initial report files %s): exit=%s changed=%s report_is_clean=%s" % (
+                    rec["step"], rec["history"], rec["init"], rec["obs"]["exit"], rec["obs"]["changed"], rec["obs"]["report_is_clean"]))
+    trace_validate(chk, "TV_RunFs", tpath, describe, timeout=1800)
+    chk.exhaustive = True
+    chk.rule = ("TLC enumerates every history of <= 2 (thorough 3) runs over 4 working directories (the analysed directory, its "
+                "parent, a sub-directory of it, an unrelated one) and every initial state of the report files (absent, other "
+                "content, Solidity-looking text, a previous report); each history is executed with the real binary on a scratch "
+                "tree; the whole tree is snapshotted (type, size, SHA-256, mode) before and after every run; TV_RunFs accepts a run "
+                "iff only the working directory's solstat_report.md changed and its bytes equal the report produced from a clean "
+                "state. Non-trivial = runs with a stale report present or not the first of their history.")
+    chk.assumptions = ["mtimes are not compared (writing the report necessarily touches the working directory)"]
